@@ -282,31 +282,38 @@ def installNextWrite (p : Nat) (c : FastOps) (x : (Option PRel × Nat) × Nat) :
       | some (head, _) => some (head, ⟨p, relv⟩)
       | none => some (⟨p, relv⟩, ⟨p, relv⟩))
 
-/-- global part of "Install the new one" including the counter, the slot write and `n += 1` -/
-def installGlobal (c : FastOps) (p : Nat) (op : Op) (prevs nexts : List (Option PRel))
-    (a : Cursor) : FastOps :=
-  let nextP :=
-    match a.lastP with
-    | some lp => (c.getNode lp).bind (·.nextP)
-    | none => c.pEnds.map (·.1)
-  let node : Node :=
-    { op := op, previousP := a.lastP, nextP := nextP, previousForVars := prevs, nextForVars := nexts }
+/-- the `next_p` the new node receives -/
+def installNextP (c : FastOps) (a : Cursor) : Option Nat :=
+  match a.lastP with
+  | some lp => (c.getNode lp).bind (·.nextP)
+  | none => c.pEnds.map (·.1)
+
+/-- "Based on what these were set to, adjust the p_ends and neighboring nodes", the counter,
+the slot write and `n += 1` -/
+def installGlobalCore (c : FastOps) (p : Nat) (node : Node) : FastOps :=
   let c1 :=
-    match a.lastP with
+    match node.previousP with
     | some prev => c.setNextP prev (some p)
     | none =>
       c.setPEnds (match c.pEnds with
           | some (_, tail) => some (p, tail)
           | none => some (p, p))
   let c2 :=
-    match nextP with
+    match node.nextP with
     | some next => c1.setPrevP next (some p)
     | none =>
       c1.setPEnds (match c1.pEnds with
           | some (head, _) => some (head, p)
           | none => some (p, p))
-  let c3 := c2.incrBond op.bond
+  let c3 := c2.incrBond node.op.bond
   (c3.setOp p (some node)).setN (c3.n + 1)
+
+/-- global part of "Install the new one" -/
+def installGlobal (c : FastOps) (p : Nat) (op : Op) (prevs nexts : List (Option PRel))
+    (a : Cursor) : FastOps :=
+  installGlobalCore c p
+    { op := op, previousP := a.lastP, nextP := installNextP c a, previousForVars := prevs,
+      nextForVars := nexts }
 
 /-- the whole install branch -/
 def install (c : FastOps) (p : Nat) (op : Op) (a : Cursor) : FastOps :=
